@@ -59,7 +59,7 @@ impl Prop for C07 {
         ]
     }
     fn cases(tier: Tier) -> u64 {
-        tier.pick(8000, 200_000)
+        tier.pick(8000, 40_000)
     }
     fn strategy(tier: Tier) -> BoxedStrategy<c01::Case> {
         gen::bw_case(tier, true).prop_map(c01::make_case).boxed()
